@@ -168,8 +168,8 @@ class Run:
                                   alarm=k.get("alarm", 60), henv=w.get("env"))
                 still = r.get("result") == "violated"
             elif k.get("probe"):
-                p = subprocess.run([PY, os.path.join(ROOT, k["probe"])], capture_output=True, text=True,
-                                   cwd=ROOT, env=_env({"VERIF_NATIVE": "1"}), timeout=300)
+                p = subprocess.run([PY, os.path.join(ROOT, k["probe"])] + list(k.get("probe_args", [])), capture_output=True, text=True,
+                                   cwd=ROOT, env=_env({"VERIF_NATIVE": "1", "PYTHONPATH": ROOT}), timeout=300)
                 still = p.returncode == 1
             if still:
                 print(f"KNOWN-FINDING: property={self.prop} {k['id']}: {k['what']}", flush=True)
